@@ -1,0 +1,29 @@
+//go:build verif
+
+/*
+Copyright (c) Meta Platforms, Inc. and affiliates.
+Licensed under the Apache License, Version 2.0 (the "License");
+you may not use this file except in compliance with the License.
+You may obtain a copy of the License at
+    http://www.apache.org/licenses/LICENSE-2.0
+Unless required by applicable law or agreed to in writing, software
+distributed under the License is distributed on an "AS IS" BASIS,
+WITHOUT WARRANTIES OR CONDITIONS OF ANY KIND, either express or implied.
+See the License for the specific language governing permissions and
+limitations under the License.
+*/
+
+package db
+
+import "math/rand"
+
+// NewDBForVerif wraps a caller-supplied DBI into a DB.
+func NewDBForVerif(dbi DBI) *DB { return &DB{dbi: dbi} }
+
+// SetRandSourceForVerif replaces the source of the package-level generator used for weighted
+// random selection and returns a function restoring the previous one.
+func SetRandSourceForVerif(src rand.Source64) func() {
+	old := localRand
+	localRand = rand.New(&lockedSource{src: src})
+	return func() { localRand = old }
+}
